@@ -388,6 +388,10 @@ pub fn fam_poison(thorough: bool) -> Vec<Program> {
 						vec![Step::ClearPoison(0), acq(0, true, Flavour::Guard, Body::TOUCH)],
 						vec![Step::IsPoisoned(0), acq(2, true, Flavour::Guard, Body::TOUCH), acq(1, true, Flavour::Guard, Body::TOUCH)],
 					];
+					let mut observers = observers;
+					// blocking shared acquisitions that may already be waiting when the flag changes
+					observers.push(vec![acq(0, false, Flavour::Guard, Body::TOUCH)]);
+					observers.push(vec![acq(0, false, Flavour::ScopedLent, Body::TOUCH), Step::IsPoisoned(0)]);
 					for ob in observers {
 						let ob: Vec<Step> = ob
 							.into_iter()
@@ -402,6 +406,20 @@ pub fn fam_poison(thorough: bool) -> Vec<Program> {
 			}
 		}
 	}
+	// the holder repairs: T0 poisons, then clears the flag inside a later exclusive section; T1 acquires meanwhile
+	for specs in &target_sets {
+		let sharable = specs[0].sharable();
+		for f1 in [Flavour::Guard, Flavour::Try, Flavour::ScopedLent] {
+			for w1 in [true, false] {
+				if !w1 && !sharable {
+					continue;
+				}
+				let t0 = vec![acq(0, true, Flavour::Guard, Body::PANIC), acq(0, true, Flavour::Guard, Body::CLEAR)];
+				let t1 = vec![acq(0, w1, f1, Body::TOUCH), Step::IsPoisoned(0)];
+				out.push(Program { specs: specs.clone(), threads: vec![t0, t1], policy: Policy::RP, name: "P".into(), menu: vec![] });
+			}
+		}
+	}
 	out
 }
 
@@ -409,7 +427,7 @@ pub fn fam_poison(thorough: bool) -> Vec<Program> {
 pub fn fam_c09(thorough: bool) -> Vec<Program> {
 	let mut out = vec![];
 	let maxn = if thorough { 4 } else { 3 };
-	let body = Body { touch: true, yield_mid: false, panic: false };
+	let body = Body { touch: true, yield_mid: false, panic: false, clear: false };
 	for policy in POLICIES {
 		for n in 1..=maxn {
 			for arr in perms(n) {
@@ -485,6 +503,32 @@ pub fn fam_c09(thorough: bool) -> Vec<Program> {
 							continue;
 						}
 						out.push(Program { specs: vec![t0s.clone(), o.clone()], threads: vec![vec![acq(0, w0, Flavour::Guard, body)], vec![acq(1, w1, Flavour::Guard, body)]], policy, name: "Rn".into(), menu: vec![] });
+					}
+				}
+			}
+		}
+	}
+	// the opponent takes a member twice (release and re-take while the retrying thread is between two raw
+	// operations), singly and then through a sorting collection over the same members; mutex and rwlock members
+	let b0 = Body { touch: false, yield_mid: false, panic: false, clear: false };
+	for policy in POLICIES {
+		for members in [vec![Spec::R(0), Spec::M(0)], vec![Spec::M(0), Spec::R(0)], vec![Spec::M(1), Spec::M(0)], vec![Spec::R(1), Spec::R(0)], vec![Spec::R(0), Spec::R(1)]] {
+			for w0 in [true, false] {
+				let t0s = Spec::Coll(Kind::Retry, members.clone());
+				if !w0 && !t0s.sharable() {
+					continue;
+				}
+				for which in 0..2usize {
+					let single = members[which].clone();
+					let sorted = Spec::Coll(Kind::Boxed, members.clone());
+					for second_sorted in [false, true] {
+						if policy == Policy::WP && !w0 {
+							continue;
+						}
+						let t1 = vec![acq(1, true, Flavour::Guard, b0), acq(if second_sorted { 2 } else { 1 }, true, Flavour::Guard, b0)];
+						for f in [Flavour::Guard, Flavour::ScopedLent] {
+							out.push(Program { specs: vec![t0s.clone(), single.clone(), sorted.clone()], threads: vec![vec![acq(0, w0, f, b0)], t1.clone()], policy, name: "Rr".into(), menu: vec![] });
+						}
 					}
 				}
 			}
@@ -584,6 +628,177 @@ pub fn fam_vecs(body: Body) -> Vec<Program> {
 					continue;
 				}
 				out.push(Program { specs: vec![Spec::Native(Native::VecsNew(k0)), Spec::Native(Native::VecsNew(k1))], threads: vec![vec![acq(0, true, Flavour::Guard, body)], vec![acq(1, true, Flavour::Guard, body)]], policy, name: "V".into(), menu: vec![] });
+			}
+		}
+	}
+	out
+}
+
+/// Family M: both threads use the *same* collection whose members are listed against the address order
+/// (`&mut` members), in every combination of modes: a collection that orders its members differently for
+/// different modes (or flavours) deadlocks against itself.
+pub fn fam_same(body: Body, thorough: bool) -> Vec<Program> {
+	let mut out = vec![];
+	for policy in POLICIES {
+		for which in 0..4u8 {
+			for n in if thorough { vec![2usize, 3] } else { vec![2] } {
+				for (w0, w1) in [(true, false), (true, true), (false, false)] {
+					if policy == Policy::WP && w0 == w1 {
+						continue;
+					}
+					for f0 in [Flavour::Guard, Flavour::ScopedLent] {
+						for f1 in [Flavour::Guard, Flavour::ScopedOwned] {
+							if !thorough && f0 != Flavour::Guard && f1 != Flavour::Guard {
+								continue;
+							}
+							out.push(Program { specs: vec![Spec::Native(Native::MutRefs(which, n))], threads: vec![vec![acq(0, w0, f0, body)], vec![acq(0, w1, f1, body)]], policy, name: "M".into(), menu: vec![] });
+						}
+					}
+				}
+			}
+		}
+	}
+	// the same, with the members inside an owned unit that a sorting / retrying collection refers to
+	for policy in POLICIES {
+		for k in KINDS {
+			for (w0, w1) in [(true, false), (true, true)] {
+				if policy == Policy::WP && w0 == w1 {
+					continue;
+				}
+				out.push(Program { specs: vec![Spec::Native(Native::OwnedDescIn(k, 2))], threads: vec![vec![acq(0, w0, Flavour::Guard, body)], vec![acq(0, w1, Flavour::ScopedLent, body)]], policy, name: "M".into(), menu: vec![] });
+			}
+		}
+	}
+	out
+}
+
+/// Family K: a raw lock operation panics in one thread (killing that lock) while a second thread holds the
+/// lock and a third is waiting for it (directly or through a collection). The waiter either gets the lock or
+/// refuses it by panicking, but never keeps anything it took; later acquisitions refuse the killed lock.
+pub fn fam_kill(thorough: bool) -> Vec<Program> {
+	let mut out = vec![];
+	for policy in POLICIES {
+		for leaf in [Spec::R(0), Spec::M(0)] {
+			let rw = matches!(leaf, Spec::R(_));
+			let mut colls = vec![leaf.clone(), Spec::Coll(Kind::Boxed, vec![leaf.clone(), Spec::R(1)]), Spec::Coll(Kind::Ref, vec![Spec::R(1), leaf.clone()])];
+			if thorough {
+				colls.push(Spec::Coll(Kind::Retry, vec![leaf.clone(), Spec::R(1)]));
+				colls.push(Spec::Coll(Kind::Retry, vec![Spec::R(1), leaf.clone()]));
+				colls.push(Spec::Pois(Box::new(leaf.clone())));
+			}
+			for c in colls {
+				for (wh, ww) in [(true, true), (true, false), (false, true)] {
+					if (!wh || !ww) && !rw {
+						continue;
+					}
+					if policy == Policy::WP && wh && ww {
+						continue;
+					}
+					for fw in [Flavour::Guard, Flavour::ScopedLent] {
+						for htarget in [0usize, 1] {
+							if htarget == 1 && !thorough && fw != Flavour::Guard {
+								continue;
+							}
+							out.push(Program {
+								specs: vec![leaf.clone(), c.clone()],
+								threads: vec![vec![acq(htarget, wh, Flavour::Guard, Body::TOUCH)], vec![acq(1, ww, fw, Body::TOUCH), acq(1, ww, Flavour::Guard, Body::NONE)], vec![Step::FaultyTry { target: 0, write: true }]],
+								policy,
+								name: "K".into(),
+								menu: vec![],
+							});
+						}
+					}
+				}
+			}
+		}
+	}
+	out
+}
+
+/// Family T: two threads with two acquisitions each over the same two leaves (listed in opposite orders):
+/// whatever an acquisition leaves behind (a cached order, a counter, a flag) meets a second acquisition by the
+/// same thread and by the other one. The first acquisition of T0 ranges over the try / unlock / scoped-try
+/// flavours, whose exits differ most from a plain guard drop.
+pub fn fam_twice(body: Body, thorough: bool) -> Vec<Program> {
+	let mut out = vec![];
+	let pairs: Vec<(Kind, Kind)> = if thorough { KINDS.iter().flat_map(|a| KINDS.iter().map(move |b| (*a, *b))).collect() } else { vec![(Kind::Boxed, Kind::Boxed), (Kind::Boxed, Kind::Retry), (Kind::Retry, Kind::Retry), (Kind::Ref, Kind::Retry)] };
+	let firsts: &[Flavour] = if thorough { &[Flavour::Try, Flavour::GuardUnlock, Flavour::ScopedTryLent, Flavour::Guard] } else { &[Flavour::Try, Flavour::GuardUnlock] };
+	for policy in POLICIES {
+		for (k1, k2) in &pairs {
+			for f1 in firsts {
+				for f2 in [Flavour::Guard, Flavour::ScopedLent] {
+					for (wa, wb) in [(true, true), (true, false), (false, true)] {
+						let specs = vec![Spec::Coll(*k1, rs(&[0, 1])), Spec::Coll(*k2, rs(&[1, 0]))];
+						let t0 = vec![acq(0, wa, *f1, body), acq(0, wb, f2, body)];
+						let t1 = vec![acq(1, true, Flavour::Guard, body), acq(1, false, Flavour::Guard, body)];
+						out.push(Program { specs, threads: vec![t0, t1], policy, name: "T".into(), menu: vec![] });
+					}
+				}
+			}
+		}
+	}
+	out
+}
+
+/// Family S: two readers and a writer on one lock-like target (a lock, a Poisonable, a wrapper around a
+/// collection, an owned unit), every pair of guard / scoped / scoped-try flavours for the readers: a release
+/// that takes more than the caller's own shared hold away lets the writer in while the other reader is inside.
+pub fn fam_readers(thorough: bool) -> Vec<Program> {
+	let mut out = vec![];
+	let mut specs = vec![Spec::R(0), Spec::PR(0), Spec::PPR, Spec::OW(0), Spec::Pois(Box::new(Spec::Coll(Kind::Boxed, vec![Spec::R(0), Spec::R(1)]))), Spec::Pois(Box::new(Spec::Coll(Kind::Retry, vec![Spec::R(1), Spec::R(0)]))), Spec::Coll(Kind::Boxed, vec![Spec::PR(0), Spec::R(1)])];
+	if thorough {
+		specs.push(Spec::Pois(Box::new(Spec::Coll(Kind::Ref, vec![Spec::R(1), Spec::R(0)]))));
+		specs.push(Spec::Coll(Kind::Retry, vec![Spec::R(1), Spec::PR(0)]));
+		specs.push(Spec::Native(Native::PoisOwned(2)));
+		specs.push(Spec::Native(Native::OwnedPoisR));
+	}
+	let rf: &[Flavour] = if thorough { &[Flavour::Guard, Flavour::GuardUnlock, Flavour::Try, Flavour::ScopedLent, Flavour::ScopedOwned, Flavour::ScopedTryLent, Flavour::ScopedTryOwned] } else { &[Flavour::Guard, Flavour::ScopedLent, Flavour::ScopedTryOwned] };
+	let inside = Body { touch: true, yield_mid: true, panic: false, clear: false };
+	let quick = Body { touch: true, yield_mid: false, panic: false, clear: false };
+	for policy in POLICIES {
+		for s in &specs {
+			for f0 in rf {
+				for f1 in rf {
+					for fw in [Flavour::Guard, Flavour::Try] {
+						if policy == Policy::WP && fw == Flavour::Try {
+							continue;
+						}
+						out.push(Program { specs: vec![s.clone()], threads: vec![vec![acq(0, false, *f0, inside)], vec![acq(0, false, *f1, quick)], vec![acq(0, true, fw, quick)]], policy, name: "S".into(), menu: vec![] });
+					}
+				}
+			}
+		}
+	}
+	out
+}
+
+/// Family G: one thread formats (Debug) a lock or a collection while another thread is inside a section
+/// of it, then tries to acquire it: formatting must not take anybody's hold away.
+pub fn fam_debug(thorough: bool) -> Vec<Program> {
+	let mut out = vec![];
+	let mut sets: Vec<Vec<Spec>> = vec![vec![Spec::M(0), Spec::M(0)], vec![Spec::R(0), Spec::R(0)], vec![Spec::PM(0), Spec::PM(0)], vec![Spec::M(0), Spec::Native(Native::OwnedTupMR)]];
+	for k in KINDS {
+		sets.push(vec![Spec::M(0), Spec::Coll(k, vec![Spec::R(0), Spec::M(0)])]);
+		sets.push(vec![Spec::R(0), Spec::Coll(k, vec![Spec::R(0), Spec::M(0)])]);
+		sets.push(vec![Spec::Coll(k, vec![Spec::M(0), Spec::R(0)]), Spec::Coll(k, vec![Spec::M(0), Spec::R(0)])]);
+		if thorough {
+			sets.push(vec![Spec::PR(0), Spec::Coll(k, vec![Spec::PR(0), Spec::R(1)])]);
+			sets.push(vec![Spec::R(0), Spec::Pois(Box::new(Spec::Coll(k, vec![Spec::R(1), Spec::R(0)])))]);
+		}
+	}
+	let inside = Body { touch: true, yield_mid: true, panic: false, clear: false };
+	for specs in sets {
+		if specs.len() == 2 && matches!(specs[1], Spec::Native(Native::OwnedTupMR)) {
+			// fresh leaves: the holder uses the collection itself
+			out.push(Program { specs: vec![specs[1].clone()], threads: vec![vec![acq(0, true, Flavour::Guard, inside)], vec![Step::Debug(0), acq(0, true, Flavour::Try, Body::TOUCH)]], policy: Policy::RP, name: "G".into(), menu: vec![] });
+			continue;
+		}
+		for w0 in [true, false] {
+			if !w0 && !specs[0].sharable() {
+				continue;
+			}
+			for f0 in [Flavour::Guard, Flavour::ScopedLent] {
+				out.push(Program { specs: specs.clone(), threads: vec![vec![acq(0, w0, f0, inside)], vec![Step::Debug(1), acq(1, true, Flavour::Try, Body::TOUCH)]], policy: Policy::RP, name: "G".into(), menu: vec![] });
 			}
 		}
 	}
